@@ -100,4 +100,12 @@ CLAIMS["C14"] = {
     "design_ref": "DESIGN.md §3 C14",
 }
 
+CLAIMS["C13"] = {
+    "technique": "rapid-generated attachment sequences (router address assignment) and a rapid state machine over a host's bind table, both through the public API with probe datagrams",
+    "engine": "rapid-models",
+    "text": "Generated-input search: (1) sequences of up to 40 (or 250..260) host/child-router attachments with automatic, static-in-subnet, static-in-automatic-range, static-outside-subnet and double static addresses on /24, /16 and /28 routers; after each attachment no automatically assigned address is held by another NIC, every address lies inside the subnet or an error was returned, exhaustion is reported instead of reuse, and a probe datagram to every address reaches its holder. (2) ListenUDP/ListenPacket/DialUDP/Close histories on a host with 1..3 IPs against a bind-table model (wildcard/specific/loopback, port 0 and a pre-filled 5000..5999 range), with probe datagrams that must be received by exactly the covering open socket or by nobody (a marker datagram through the same router queue makes negative answers decidable without sleeping). Exploration only.",
+    "note": "Trusted: the bind-table model; a read-only shim exposes the receive-queue length of a socket so that the harness reads exactly what has arrived. Two identical static addresses are never generated (unconstrained by the statement). Net.Dial is not part of the machine.",
+    "design_ref": "DESIGN.md §3 C13",
+}
+
 PENDING_REASON = "check not built yet in this revision of /verif (planned, see DESIGN.md §3); nothing is claimed for it"
